@@ -1,0 +1,10 @@
+//go:build verif
+
+// Contracts (machine-checked specifications) for the adapter genesis type, read by /verif's govc.
+// This file contains comments only and compiles to nothing with or without the tag.
+
+package adapter
+
+// A valid adapter genesis (C17) is any non-nil one: the only parameter is an unsigned limit.
+//@ func (g *GenesisState) Validate() (err)
+//@   ensures[C17] (err == nil) == (g != nil)
